@@ -1268,3 +1268,16 @@ Proof.
   intros parse cv next cs. unfold run. rewrite <- fold_left_rev_right.
   induction (rev cs) as [|c r IH]; simpl; [intros k t G; discriminate|]. apply step_conv_ok. auto.
 Qed.
+
+(* ---------------------------------------------------------------- a failing state save *)
+Lemma savefail_keeps_change :
+  let st := init_state [] 4%N in
+  fst (step_savefail demo_parse st (CAdd "tag/a" "red" "sport:80")) = Err ESaveState /\
+  tags (snd (step_savefail demo_parse st (CAdd "tag/a" "red" "sport:80"))) <> tags st.
+Proof. vm_compute. split; [reflexivity|discriminate]. Qed.
+
+Lemma savefail_wf : forall parse st c, wf_tags (tags st) -> wf_tags (tags (snd (step_savefail parse st c))).
+Proof.
+  intros parse st c W. unfold step_savefail. pose proof (step_wf parse st c W) as H.
+  destruct (step parse st c) as [[| | |] st']; exact H.
+Qed.
